@@ -29,7 +29,9 @@ man = {
               "baseline_off_cmd": "cd /repo && /venv/bin/python -m pytest -ra -q -p no:cacheprovider --timeout=900 --continue-on-collection-errors",
               "source_commits": [], "add_only": True},
     "engines": [
-        {"name": "pyvc", "path": "pyvc", "serves_properties": sorted(M.CHECKS),
+        {"name": "cvc", "path": "pyvc/cfront.py", "serves_properties": sorted(p for p in M.CHECKS if M.CHECKS[p].get("engine") == "cvc"),
+         "kind_free_text": "C front end of the same verifier: symbolic execution of clang's JSON AST of the current C source inside a pyvc unit (byte-array memory, integer offsets, loop cut at contract invariants, in-bounds and no-overflow obligations), z3"},
+        {"name": "pyvc", "path": "pyvc", "serves_properties": sorted(p for p in M.CHECKS if M.CHECKS[p].get("engine", "pyvc") == "pyvc"),
          "kind_free_text": "contract verifier built here: runs the real function objects of /repo on z3-backed proxy values (fork by re-execution), loops cut at contract invariants by a mechanical AST rewrite, one SMT obligation per clause per path (z3, then cvc5); the same contract bodies run on real values as replay oracle and bounded stand-in"},
     ],
     "checks": checks,
